@@ -220,6 +220,17 @@ fn run(cfg: &Cfg, history: &[String]) -> HResult {
     let other_span = tracing_core::dispatch::with_default(&ex.other, || world::make_span(3, ParentKind::Root));
     let other_id = other_span.id().map(|i| i.into_u64());
     for w in &ex.workers {
+        // every thread also creates a span of its own in the other registry (span ids carry the
+        // creating thread, so this one collides with the first span the thread creates in the
+        // own registry) and keeps it entered there for the whole history: what a thread has
+        // entered in one registry is no part of another registry's context
+        w.call(Cmd::SetDef(Some(ex.other.clone())));
+        if let Reply::Span(sp) = w.call(Cmd::New(3, ParentKind::Root)) {
+            if let Some(id) = sp.id() {
+                w.call(Cmd::Enter(ex.other.clone(), id));
+            }
+            std::mem::forget(sp);
+        }
         w.call(Cmd::SetDef(Some(ex.own.clone())));
     }
     let mut m = Model {
